@@ -563,6 +563,11 @@ impl<'g, T> CallDriver<'g, T> {
     }
 }
 
+thread_local! {
+    /// Polls issued after a stream returned `None` (evidence counter, read and reset by the runner).
+    pub static POST_END_POLLS: std::cell::Cell<u64> = const { std::cell::Cell::new(0) };
+}
+
 /// What a stream hands out, unified over the plain and the interruptible streams.
 pub enum SItem<'g> {
     Plain(FnRef<'g, TFn>),
@@ -740,6 +745,7 @@ impl<'g> StreamDriver<'g> {
                     let mut cx = Context::from_waker(&self.waker);
                     let r = catch_unwind(AssertUnwindSafe(|| s.as_mut().poll_next(&mut cx)));
                     self.post_end_polls += 1;
+                    POST_END_POLLS.with(|c| c.set(c.get() + 1));
                     match r {
                         Ok(Poll::Ready(Some(item))) => {
                             let mut st = self.sh.borrow_mut();
